@@ -43,7 +43,12 @@ pub fn generate(cx: &super::GenCtx) -> Vec<Plan> {
         q.cost_ns = 7000;
         q.switch_ns = 50_000;
         q.stalls = vec![(rng.range(1000, 400_000), 700_000_000), (rng.range(400_000, 3_000_000), 1_300_000_000)];
-        return vec![p, q];
+        // and once more under a seeded thread schedule with preemptions: if the search ever gets
+        // company (a helper thread, a timer), who runs first must not matter either
+        let mut r = p.clone();
+        gen::machine(&mut r, &mut rng, 2_000_000, true);
+        gen::schedule(&mut r, &mut rng, 2_000_000);
+        return vec![p, q, r];
     }
     let mut spec = gen::random_posspec(&mut rng);
     if rng.chance(1, 6) {
@@ -72,7 +77,44 @@ pub fn generate(cx: &super::GenCtx) -> Vec<Plan> {
     } else {
         rng.range(1, 5)
     };
-    let envs = if cx.thorough { 12 } else { 8 };
+    // "fixed depth" is not only depth 1 to 4: one case in thirty-two is a tiny position (kings and
+    // one or two pieces) searched 6 or 7 plies deep (in four environments
+    // instead of eight), so that whatever an engine does only from
+    // some depth on (seeded defect C16-o: a helper thread from depth 7) runs under all the
+    // environments. Own random stream: the other cases of a seed stay what they were.
+    let mut deep = None;
+    if cx.index % 32 == 9 {
+        let mut r2 = Rng::new(seed ^ 0xD1_6D16);
+        use super::super::refmodel::{Pos, B, BLACK, EMPTY, K, N, P, Q, R};
+        for _ in 0..200 {
+            let mut sqs = [EMPTY; 64];
+            let mut free: Vec<usize> = (0..64).collect();
+            r2.shuffle(&mut free);
+            sqs[free.pop().unwrap()] = K;
+            sqs[free.pop().unwrap()] = K | BLACK;
+            for _ in 0..r2.range(1, 3) {
+                let t = *r2.pick(&[P, P, P, N, B, R, Q]);
+                let sq = free.pop().unwrap();
+                if t == P && !(8..56).contains(&sq) {
+                    continue;
+                }
+                sqs[sq] = t | if r2.chance(1, 2) { 0 } else { BLACK };
+            }
+            let pos = Pos { sq: sqs, white: r2.chance(1, 2), castle: [false; 4], ep: None, hmc: r2.below(20) as u32, fmn: r2.range(1, 90) as u32 };
+            if pos.is_sane() && !pos.legal_moves().is_empty() {
+                deep = Some((pos, *r2.pick(&[6u64, 7, 7])));
+                break;
+            }
+        }
+    }
+    let deep_case = deep.is_some();
+    let d = if let Some((pos, dd)) = deep {
+        spec = gen::PosSpec { cmd: format!("position fen {}", pos.to_fen()), game: vec![pos], dense: false };
+        dd
+    } else {
+        d
+    };
+    let envs = if deep_case { 4 } else if cx.thorough { 12 } else { 8 };
     let mut plans = vec![];
     for e in 0..envs {
         // noise: an unrelated search before some environments (its result is ignored)
@@ -189,6 +231,9 @@ pub fn check(plans: &[Plan], recs: &[RunRec]) -> Outcome {
         keys.push(key);
         digests.push((pi, result_digest(&infos, best)));
         out.stats.inc("environments");
+        if v.limits.depth.is_some_and(|d| d >= 7) {
+            out.stats.inc("reach.fixed_depth_7_or_more");
+        }
         if views.first().is_some_and(|v| v.game.len() > 100) {
             out.stats.inc("reach.long_game_history");
         }
